@@ -126,7 +126,37 @@ var c03 = Register("C03", "C03.quorem", func(a c03Args) *Violation {
 })
 
 func genQuoRemPair(t *rapid.T) (D, D) {
-	switch ir(t, 0, 9, "pairKind") {
+	switch ir(t, 0, 11, "pairKind") {
+	case 10, 11:
+		// magnitudes within a factor of ten of each other although the exponents are far apart: the dividend has
+		// a long coefficient at a low exponent, the divisor a short one (often 1) at a high exponent, and the
+		// exponent gap is minus the difference of their digit counts, give or take one. The integer quotient is
+		// 0..99 and every "the dividend is too small to matter" shortcut has its boundary here.
+		var cx *big.Int
+		if rapid.Bool().Draw(t, "full") {
+			cx = fullCoef(t)
+		} else {
+			cx = genCoef(t)
+			if cx.Sign() == 0 {
+				cx = bi(7)
+			}
+		}
+		var cy *big.Int
+		switch ir(t, 0, 3, "cyKind") {
+		case 0:
+			cy = bi(1)
+		case 1:
+			cy = bi(int64(ir(t, 1, 99, "cySmall")))
+		default:
+			cy = genDigits(t, ir(t, 1, 20, "cyLen"))
+		}
+		g := -(ref.DecLen(cx) - ref.DecLen(cy)) + ir(t, -1, 1, "slack")
+		ey := genExp(t)
+		ex := ey + g
+		if ex < ref.Emin {
+			ex, ey = ref.Emin, ref.Emin-g
+		}
+		return DFin(genSign(t), cx, clampExp(ex)), DFin(genSign(t), cy, clampExp(ey))
 	case 0:
 		return genFinite(t), genFiniteNZ(t)
 	case 1, 2:
@@ -209,7 +239,7 @@ func genQuoRemPair(t *rapid.T) (D, D) {
 }
 
 func TestC03_QuoRem(t *testing.T) {
-	runRapid(t, 40000, 2000000, func(t *rapid.T) {
+	runRapid(t, 60000, 2400000, func(t *rapid.T) {
 		x, y := genQuoRemPair(t)
 		c03.Run(t, c03Args{X: x, Y: y})
 	})
